@@ -72,6 +72,14 @@ H(prop="C16", name="c16_char_column_layout12", crate="core-h", module="c16_posit
   decides="get_char_column(byte column, offset) == number of chars since the last newline (forward decode)",
   functions=["ast_grep_core::source::<String as Content>::get_char_column"], assumes=[ST_UTF8],
   shape="STR", bounds="the 12-byte text x0 <2B> x1 <3B> U+1F600 x2 with x_i in {a, \\n}, <2B> in {U+00E9, U+07FF}, <3B> in {U+0800, U+FFFD} (symbolic), every char-boundary offset; unwind 14")
+H(prop="C19", name="c19_node_positions_layout12", crate="core-h", module="c16_positions", also=["C16"], mem_gb=24,
+  decides="Node::start_pos()/end_pos(): line == newlines before the offset, column(node) == characters since the last newline, ts_point == (line, bytes since the last newline)",
+  functions=["ast_grep_core::node::Node::start_pos", "ast_grep_core::node::Node::end_pos", "ast_grep_core::Position::column", "ast_grep_core::Position::line", "ast_grep_core::Position::ts_point"],
+  assumes=[ST_TS, ST_UTF8], shape="STR", bounds="one-node tree over the 12-byte text x0 U+00E9 x1 U+0800 U+1F600 x2 with x_i symbolic in {a, \\n}; every node range on character boundaries; unwind 14")
+H(prop="C19", name="c19_node_positions_after_edit", crate="core-h", module="c16_positions", mem_gb=24,
+  decides="after AstGrep::edit inserted a multi-byte character into an ASCII document, end_pos() line / character column are those of the new text",
+  functions=["ast_grep_core::node::Root::do_edit", "ast_grep_core::node::Node::end_pos", "ast_grep_core::Position::column"],
+  assumes=[ST_TS, ST_UTF8], shape="STR", bounds="3-byte text over {a, \\n} (middle byte symbolic), U+00E9 inserted at every position; one-node tree before and after; unwind 10")
 H(prop="C16", name="c16_display_context_len3", crate="core-h", module="c16_positions", mem_gb=24, timeout=1800,
   decides="Node::display_context(before, after): leading / matched / trailing / start_line == whole-line window around the node, clipped at the file edges",
   functions=["ast_grep_core::node::Node::display_context"], assumes=[ST_TS],
@@ -91,7 +99,7 @@ H(prop="C16", name="c16_display_context_n9", crate="core-h", module="c16_positio
 
 # ---------------------------------------------------------------- C10
 for ln in range(5):
-    H(prop="C10", name=f"c10_input_edit_exact_len{ln}", crate="core-h", module="c10_edit", mem_gb=20, timeout=1800, tier="quick" if ln <= 2 else "thorough",
+    H(prop="C10", name=f"c10_input_edit_exact_len{ln}", crate="core-h", module="c10_edit", mem_gb=20, timeout=3600, tier="quick" if ln <= 2 else "thorough",
       decides="AstGrep::edit: new text == splice; the old tree receives exactly one Tree::edit whose InputEdit (bytes and row/col points) describes the change exactly; re-parse is given the old tree",
       functions=["ast_grep_core::node::Root::do_edit", "ast_grep_core::source::perform_edit",
                  "ast_grep_core::source::<String as Content>::accept_edit", "ast_grep_core::source::position_for_offset"],
@@ -191,6 +199,14 @@ for suf, lvl in (("ast_k2", "ast"), ("relaxed_k2", "relaxed")):
       decides=f"pattern children `x ,` (named leaf, then unnamed separator) under strictness {lvl}: the sibling alignment accepts a FLAT(2) node => a legal alignment exists",
       functions=ALIGN_FUNCS[:4] + ["ast_grep_core::match_tree::match_node::match_single_node_while_skip_trivial", "ast_grep_core::match_tree::ComputeEnd"], assumes=ALIGN_ASSUMES,
       shape="FLAT(2)", bounds=f"goals concrete (ident `x`, punct), 2 candidate leaves with symbolic kind in {{ident,number,comment,punct_a,punct_b}} and text; strictness {lvl}; unwind 8 (matcher loops 6), recursion depth 1")
+
+LAYS = [("sep_vs_two_named", "`x ,`", "`x y`"), ("sep_vs_sep_named", "`x ,`", "`x , y`"), ("two_vs_comment_between", "`x y`", "`x /*c*/ y`"),
+        ("one_vs_trailing_tok", "`x`", "`x ,`"), ("one_vs_leading_tok", "`x`", "`, x`"), ("tok_first_vs_one", "`, x`", "`x`")]
+for suf, gl, cl in LAYS:
+    H(prop="C03", name=f"c03_lay_{suf}", crate="core-h", module="c03_align", kani_args=LIGHT, recursion=REC_FLAT, loops=LOOPS_FLAT, features=["hooks", "n4"], timeout=1800, tier="thorough", mem_gb=24,
+      decides=f"pattern children {gl} against node children {cl}: the sibling alignment accepts => a legal alignment exists at that strictness (every goal matched or skippable, every candidate matched or skippable, order kept)",
+      functions=ALIGN_FUNCS[:4] + ["ast_grep_core::match_tree::match_node::match_single_node_while_skip_trivial", "ast_grep_core::match_tree::ComputeEnd"], assumes=ALIGN_ASSUMES,
+      shape="FLAT", bounds=f"kind layout concrete (goals {gl}, candidates {cl}); texts of the named leaves symbolic over {{x,y}}; all 5 strictness levels (symbolic); unwind 8 (matcher loops 6), recursion depth 1")
 
 H(prop="C03", name="c03_terminal_step", crate="core-h", module="c03_terminal", features=["hooks", "n4"],
   decides="match_terminal / should_skip_trailing == decision table of the strictness documentation; MatchedBoth => kinds agree (or goal ERROR) and (unnamed or text equal or signature)",
@@ -308,6 +324,15 @@ for nm, form in (("all_not", "all[kind k1, not kind k2]"), ("any", "any[kind k1,
       functions=["ast_grep_config::rule::Rule::potential_kinds", "ast_grep_core::ops::All::compute_kinds", "ast_grep_core::ops::Any::compute_kinds", "ast_grep_core::ops::Not::potential_kinds", "ast_grep_core::matcher::KindMatcher::potential_kinds"],
       shape="1 rule", bounds="k1, k2, k3 and the node kind symbolic in 1..8; rule value built from parts; unwind 10, Rule dispatch depth 3")
 
+# ---------------------------------------------------------------- C04 env kernels
+for op in ("any", "all"):
+    for pat, desc in (("a0_b1", "child 0 binds A to leaf 0, child 1 binds B to leaf 1"), ("a0_a1", "both children bind A, to different leaves (coherent only if the leaves' texts are equal)"), ("a0_none", "child 0 binds A to leaf 0, child 1 binds nothing")):
+        H(prop="C04", name=f"c04k_{op}_{pat}", crate="core-h", module="c04_ops", features=["hooks", "n4"], timeout=1800, mem_gb=24,
+          decides=f"ops::{op.capitalize()} over two children that may bind a variable and then fail ({desc}): the match verdict and the environment exposed afterwards equal the reference (any = exactly the first winning branch, all = the union, failure = untouched); the caller's environment is never modified",
+          functions=[f"ast_grep_core::ops::{op.capitalize()}::match_node_with_env", "ast_grep_core::meta_var::MetaVarEnv::insert", "ast_grep_core::match_tree::does_node_match_exactly"],
+          assumes=[ST_TS, ST_MAP, "children are stub matchers (bind, then answer a symbolic verdict)"],
+          shape="root + 2 leaves", bounds="write pattern concrete; both verdicts symbolic; the two leaves' 1-byte texts equal or different (symbolic); empty caller environment; unwind 5")
+
 # ---------------------------------------------------------------- C05 nthChild kernel
 H(prop="C05", name="c05k_nth_child_position_n4", crate="config-h", module="c05_nth", features=["hooks", "n4"], timeout=1800, mem_gb=16, stubbing=True, assumes=[ST_TS, ST_REGEX],
   decides="NthChild (no ofRule) matches node X <=> X is named, has a parent, and its 1-based position among the parent's named children (from the end when reverse) is A*m+B for some m >= 0",
@@ -315,6 +340,10 @@ H(prop="C05", name="c05k_nth_child_position_n4", crate="config-h", module="c05_n
              "ast_grep_config::rule::nth_child::FunctionalPosition::is_matched", "ast_grep_core::node::Node::parent", "ast_grep_core::node::Node::children"],
   shape="ANY(4)", bounds="every tree with <= 4 nodes (symbolic shape, kinds, named flags), every node; A in [-2,2], B in [-2,4], reverse symbolic; unwind 10")
 
+H(prop="C05", name="c05k_nth_child_of_rule_n4", crate="config-h", module="c05_nth", features=["hooks", "n4"], timeout=1800, mem_gb=20, stubbing=True, recursion=REC_RULE, assumes=[ST_TS, ST_REGEX],
+  decides="NthChild with ofRule {kind: number} matches node X <=> X is a named `number` child and its 1-based position among the parent's named `number` children (from the end when reverse) is A*m+B for some m >= 0",
+  functions=["ast_grep_config::rule::nth_child::NthChild::match_node_with_env", "ast_grep_config::rule::nth_child::NthChild::find_index", "ast_grep_config::rule::Rule::match_node_with_env"],
+  shape="ANY(4)", bounds="every tree with <= 4 nodes (symbolic shape, named bits), kinds in {ident, number}, every node; A in [-1,2], B in [0,3], reverse symbolic; unwind 10")
 H(prop="C05", name="c05k_range_position_3ch", crate="config-h", module="c05_range", timeout=1800, mem_gb=16, stubbing=True, assumes=[ST_TS, ST_REGEX],
   decides="RangeMatcher (rule key `range`) matches a node <=> the node's start and end are exactly the requested 0-based (line, character column) positions",
   functions=["ast_grep_config::rule::range::RangeMatcher::match_node_with_env", "ast_grep_core::node::Node::start_pos", "ast_grep_core::node::Node::end_pos",
@@ -342,6 +371,13 @@ for rel, stop, fld in REL_K:
       functions=["ast_grep_config::rule::relational_rule::" + rel.split('_')[0].capitalize() + "::match_node_with_env", "ast_grep_config::rule::stop_by::StopBy::find",
                  "ast_grep_config::rule::stop_by::inclusive_until", "ast_grep_core::node::Node::ancestors", "ast_grep_core::node::Node::next_all", "ast_grep_core::node::Node::prev_all"],
       shape="ANY(4)", bounds="every tree with <= 4 nodes (symbolic shape), kinds in {ident, number, comment} and field labels symbolic, every node X; one matcher call; unwind 10")
+
+for rel, fld in (("inside", False), ("inside_field", True), ("has", False), ("follows", False), ("precedes", False)):
+    H(prop="C05", name=f"c05k_{rel}_end_n5", crate="config-h", module="c05_rel", features=["hooks"], timeout=3600, mem_gb=30, stubbing=True, recursion=REC_RULE, tier="lab" if fld else "thorough",  # inside_field_end_n5: out of 30 GB
+      assumes=[ST_TS, ST_REGEX, "a field labels at most one child of a node (the reference's precondition)"],
+      decides=f"{rel.split('_')[0]} (stopBy: end{', field' if fld else ''}) with goal `kind: number` matches node X <=> the reference quantification over ancestors / descendants / later / earlier siblings says so",
+      functions=["ast_grep_config::rule::relational_rule::" + rel.split('_')[0].capitalize() + "::match_node_with_env", "ast_grep_config::rule::stop_by::StopBy::find"],
+      shape="ANY(5)", bounds="every tree with <= 5 nodes (symbolic shape), kinds in {ident, number, comment} and field labels symbolic, every node X; one matcher call; unwind 10")
 
 # ---------------------------------------------------------------- C14 table kernel
 TABLE_FUNCS = ["ast_grep_config::combined::Suppressions::collect", "ast_grep_config::combined::Suppressions::check_suppression",
@@ -515,7 +551,7 @@ for sh in range(2, 9):
 # lab      = harnesses kept as the record of what was tried but which the engine does not
 #            decide on this machine (time-outs / out of memory, DESIGN 3).  They are run only
 #            with `--tier lab`; no registered command runs them, no claim rests on them.
-_LAB_PREFIXES = ("c03_env_", "c03_len_", "c03_tt_", "c03_sep_", "c07_indent_shift", "c05k_logic", "c01k_rule_kinds", "c02_", "c04_", "c05d_", "c05_", 
+_LAB_PREFIXES = ("c03_env_", "c03_len_", "c03_tt_", "c03_sep_", "c03_lay_", "c07_indent_shift", "c05k_logic", "c01k_rule_kinds", "c02_", "c04_", "c04k_", "c05d_", "c05_", 
                  "c14_", "c12_", "c13_", "c01_combined", "c01_kinds_algebra", "c01_find_all_shape", "c01_outermost_shape", "c01_find_all_exact_n", "c01_outermost_pre_n", "c06_replace_all_disjoint_n4",
                  "c06_rewrite", "c06_replace_all_shape", "c07_template_scan", "c11_replace_regex_total", "c11_string_case_split", "c19_level_", "c19_levelq_")
 for _h in HARNESSES:
